@@ -101,19 +101,19 @@ SendFirst(m) ==
     /\ spc[m] = "first"
     /\ mq' = [mq EXCEPT ![m] = Append(@, [x |-> cur[m], n |-> 2])]
     /\ ready' = Arm(m)
-    /\ spc' = [spc EXCEPT ![m] = "follow"]
+    /\ spc' = [spc EXCEPT ![m] = "c1"]       \* next: close our own copy of the dedicated receiving end
     /\ Step(m, "sendmsg")
     /\ UNCHANGED <<dq, open, cur>> /\ UNCHANGED dedOpen /\ SUnch
 
 SendFollow(m) ==
     /\ spc[m] = "follow"
     /\ dq' = [dq EXCEPT ![m] = Append(@, cur[m])]
-    /\ spc' = [spc EXCEPT ![m] = "c1"]
+    /\ spc' = [spc EXCEPT ![m] = "c2"]
     /\ Step(m, "send")
     /\ UNCHANGED <<mq, open, cur, ready>> /\ UNCHANGED dedOpen /\ SUnch
 
 CloseDed1(m) ==
-    /\ spc[m] = "c1" /\ spc' = [spc EXCEPT ![m] = "c2"]
+    /\ spc[m] = "c1" /\ spc' = [spc EXCEPT ![m] = "follow"]
     /\ Step(m, "close")
     /\ UNCHANGED <<mq, dq, open, cur, ready>> /\ UNCHANGED dedOpen /\ SUnch
 
